@@ -12,6 +12,7 @@ package rt
 import (
 	"bufio"
 	"context"
+	"encoding/base64"
 	"encoding/json"
 	"fmt"
 	"os"
@@ -25,7 +26,8 @@ type Job struct {
 	Pkg           string ` + "`json:\"pkg\"`" + `
 	Mode          string ` + "`json:\"mode\"`" + `
 	Entry         int    ` + "`json:\"entry\"`" + `
-	Text          string ` + "`json:\"text\"`" + `
+	Text          string ` + "`json:\"-\"`" + `
+	B64           string ` + "`json:\"b64\"`" + `
 	EH            int    ` + "`json:\"eh\"`" + `
 	CancelAtPoll  int    ` + "`json:\"cpoll\"`" + `
 	CancelAtEvent int    ` + "`json:\"cevent\"`" + `
@@ -210,6 +212,12 @@ func Main() {
 		var j Job
 		if err := json.Unmarshal(sc.Bytes(), &j); err != nil {
 			fmt.Fprintln(os.Stderr, "bad job:", err)
+			os.Exit(2)
+		}
+		if raw, err := base64.StdEncoding.DecodeString(j.B64); err == nil {
+			j.Text = string(raw)
+		} else {
+			fmt.Fprintln(os.Stderr, "bad job text:", err)
 			os.Exit(2)
 		}
 		fmt.Fprintf(jr, "B %d\n", j.ID)
